@@ -36,29 +36,29 @@ type workerSummary struct {
 }
 
 type options struct {
-	prop, tier         string
-	seed               int64
-	workers, runs      int
-	replay             string
-	worker             bool
-	offset, stride     int
-	only               int
-	out                string
-	racebin            string
-	selftest           bool
-	evidenceDir        string
-	replayDir          string
-	knownFile          string
-	tmpDir             string
-	hashes             bool
-	race               bool
-	verify             bool
-	maxWall            time.Duration
-	shrinkBudget       time.Duration
-	noShrink           bool
-	selftestN          int
-	alloc              string
-	printTrace         bool
+	prop, tier     string
+	seed           int64
+	workers, runs  int
+	replay         string
+	worker         bool
+	offset, stride int
+	only           int
+	out            string
+	racebin        string
+	selftest       bool
+	evidenceDir    string
+	replayDir      string
+	knownFile      string
+	tmpDir         string
+	hashes         bool
+	race           bool
+	verify         bool
+	maxWall        time.Duration
+	shrinkBudget   time.Duration
+	noShrink       bool
+	selftestN      int
+	alloc          string
+	printTrace     bool
 }
 
 // Main is the entry point of cmd/simcheck.
@@ -195,12 +195,16 @@ func workerMain(o *options) int {
 		for k, v := range r.Counters {
 			sum.Counters[k] += v
 		}
-		allSigs[r.AbsSig] = true
+		if len(allSigs) < 1_000_000 {
+			allSigs[r.AbsSig] = true
+		}
 		if r.NonTriv {
 			sum.NonTrivial++
-			sigs[r.AbsSig] = true
+			if len(sigs) < 1_000_000 {
+				sigs[r.AbsSig] = true
+			}
 		}
-		if len(ngr) < 2_000_000 {
+		if len(ngr) < 200_000 {
 			r.ctx.ngrams(func(g uint64) { ngr[g] = true })
 		}
 		if wantSample && len(r.Sample) > 0 {
@@ -303,6 +307,40 @@ func replayMain(o *options) int {
 			return 2
 		}
 		return 0
+	}
+	if rf.Tape == nil {
+		// crash-class: regenerate from (seed, run), in a child process that may die
+		oo := *o
+		oo.prop, oo.tier, oo.seed, oo.alloc = rf.Property, rf.Tier, rf.Seed, rf.Alloc
+		if oo.tier == "" {
+			oo.tier = "quick"
+		}
+		os.MkdirAll(oo.tmpDir, 0o755)
+		self, _ := os.Executable()
+		var r *workerResult
+		for attempt := 0; attempt < 3; attempt++ {
+			if rf.ShareStride > 0 {
+				oo.runs = rf.Run + 1
+				r = launchWorker(self, &oo, RaceBuild, rf.ShareOffset, rf.ShareStride, -1)
+			} else {
+				r = launchWorker(self, &oo, RaceBuild, 0, 1, rf.Run)
+			}
+			if r.crashIdx >= 0 || rf.Violation.Class != "DATA_RACE" {
+				break
+			}
+		}
+		if r.fault != "" {
+			return fatal2("%s", r.fault)
+		}
+		if r.crashIdx < 0 && len(r.viols) == 0 {
+			fmt.Printf("replay %s: run %d of seed %d does not crash on this tree (recorded: %s %v)\n", o.replay, rf.Run, rf.Seed, rf.Violation.Class, rf.Violation.Facts)
+			return 0
+		}
+		class, sig, funcs := stderrSignature(r.stderr)
+		fmt.Printf("replay %s: %s in run %d: %s; repository functions: %s\n", o.replay, class, rf.Run, strings.Join(sig, " | "), strings.Join(funcs, ", "))
+		fmt.Println(tail(r.stderr, 40))
+		fmt.Printf("VIOLATION property=%s replay=%s\n", rf.Property, o.replay)
+		return 1
 	}
 	switch rf.Alloc {
 	case "real":
@@ -458,10 +496,13 @@ func stderrSignature(s string) (class string, sig []string, funcs []string) {
 				sig = append(sig, t)
 			}
 		}
-		if i := strings.Index(t, "github.com/cloudwego/gopkg/"); i >= 0 && strings.Contains(t, "(") && !strings.HasPrefix(t, "/") {
+		if i := strings.Index(t, "github.com/cloudwego/gopkg/"); i >= 0 && strings.HasSuffix(t, ")") && !strings.HasPrefix(t, "/") {
 			fn := t[i+len("github.com/cloudwego/gopkg/"):]
-			if j := strings.Index(fn, "("); j > 0 {
+			if j := strings.LastIndex(fn, "("); j > 0 {
 				fn = fn[:j]
+			}
+			if k := strings.Index(fn, "[go.shape"); k > 0 {
+				fn = fn[:k] + fn[strings.Index(fn, "]")+1:]
 			}
 			if !seen[fn] && len(funcs) < 8 {
 				seen[fn] = true
@@ -531,9 +572,10 @@ type batchAgg struct {
 }
 
 type crashInfo struct {
-	idx    int
-	race   bool
-	stderr string
+	idx            int
+	race           bool
+	stderr         string
+	offset, stride int
 }
 
 func (a *batchAgg) add(s *workerSummary) {
@@ -585,7 +627,7 @@ func runShare(bin string, o *options, race bool, agg *batchAgg, mu *sync.Mutex) 
 					return
 				}
 				mu.Lock()
-				agg.crashes = append(agg.crashes, crashInfo{r.crashIdx, race, r.stderr})
+				agg.crashes = append(agg.crashes, crashInfo{r.crashIdx, race, r.stderr, offset, o.workers})
 				mu.Unlock()
 				// continue after the crashed run
 				offset = r.crashIdx + o.workers
@@ -607,6 +649,12 @@ func parentMain(o *options) int {
 	os.MkdirAll(o.evidenceDir, 0o755)
 	self, _ := os.Executable()
 	t0 := time.Now()
+	// replay files of earlier invocations of this check are stale
+	if old, err := filepath.Glob(filepath.Join(o.replayDir, o.prop+"-*.json")); err == nil {
+		for _, f := range old {
+			os.Remove(f)
+		}
+	}
 	fmt.Printf("VERIF_SEED=%d property=%s tier=%s workers=%d\n", o.seed, o.prop, o.tier, o.workers)
 	agg := &batchAgg{counters: map[string]int64{}, foreign: map[string]int64{}, sigs: map[uint64]bool{}, ngrams: map[uint64]bool{}}
 	var mu sync.Mutex
@@ -671,27 +719,61 @@ func parentMain(o *options) int {
 		fmt.Printf("VIOLATION property=%s replay=%s\n", o.prop, path)
 		exit = 1
 	}
-	// 2. crashes: confirm by re-executing the run alone in a fresh process
+	// 2. crashes: confirm by re-executing the run alone in a fresh process; if that does not
+	// reproduce, by re-executing the dead worker's share up to that run
 	for _, cr := range agg.crashes {
 		bin := self
 		if cr.race {
 			bin = o.racebin
 		}
-		r := launchWorker(bin, o, cr.race, 0, 1, cr.idx)
-		if r.crashIdx < 0 && len(r.viols) == 0 {
-			// not reproducible alone: report as harness fault, never as a violation
-			return fatal2("worker died in run %d (%s) but the run does not crash when re-executed alone", cr.idx, tail(cr.stderr, 3))
+		origClass, _, origFuncs := stderrSignature(cr.stderr)
+		attempts := 1
+		if origClass == "DATA_RACE" {
+			attempts = 3
 		}
-		if len(r.viols) > 0 {
+		var r *workerResult
+		confirmed, share := false, false
+		for a := 0; a < attempts && !confirmed; a++ {
+			r = launchWorker(bin, o, cr.race, 0, 1, cr.idx)
+			confirmed = r.crashIdx >= 0
+			if len(r.viols) > 0 {
+				break
+			}
+		}
+		if r != nil && len(r.viols) > 0 {
 			continue
 		}
-		class, sig, funcs := stderrSignature(r.stderr)
-		v := &Violation{Property: o.prop, Class: class, Site: "process", Facts: F{"functions": strings.Join(funcs, ",")}, Detail: strings.Join(sig, " | ")}
-		if class == "DATA_RACE" {
-			sort.Strings(funcs)
-			v.Facts["functions"] = strings.Join(funcs, ",")
+		if !confirmed {
+			oo := *o
+			oo.runs = cr.idx + 1
+			r = launchWorker(bin, &oo, cr.race, cr.offset, cr.stride, -1)
+			confirmed = r.crashIdx == cr.idx
+			share = confirmed
 		}
-		key := v.Key() + fmt.Sprint(v.Facts["functions"])
+		stderrText := cr.stderr
+		note := "crash-class violation: the run is regenerated from (seed, run); replaying kills the process again"
+		if confirmed {
+			stderrText = r.stderr
+			if share {
+				note = "crash-class violation: reproduces when the dead worker's share (run indices offset, offset+stride, ... up to run) is re-executed in one process; the replay does exactly that"
+			}
+		} else if origClass == "DATA_RACE" && len(origFuncs) > 0 {
+			// a race report naming repository code is never a false positive of the detector;
+			// whether it shows again depends on the detector's randomised shadow-cell eviction
+			note = "DATA RACE reported once by the Go race detector in code of the repository; re-execution did not show it again (the detector's shadow-memory eviction and sync.Pool's behaviour under -race are randomised). Original report attached."
+		} else {
+			return fatal2("worker died in run %d (%s) but neither the run alone nor the worker's share crashes again", cr.idx, tail(cr.stderr, 3))
+		}
+		class, sig, funcs := stderrSignature(stderrText)
+		if class == "DATA_RACE" && len(funcs) == 0 {
+			return fatal2("the race detector reported a race that involves no repository code (harness race?): %s", tail(stderrText, 12))
+		}
+		sort.Strings(funcs)
+		v := &Violation{Property: o.prop, Class: class, Site: "process", Facts: F{"functions": strings.Join(funcs, ",")}, Detail: strings.Join(sig, " | ")}
+		key := v.Key()
+		if class != "DATA_RACE" {
+			key += fmt.Sprint(v.Facts["functions"])
+		}
 		if reported[key] {
 			continue
 		}
@@ -701,7 +783,10 @@ func parentMain(o *options) int {
 			build = "race"
 		}
 		rf := &ReplayFile{Property: o.prop, Seed: o.seed, Run: cr.idx, Tier: o.tier, Build: build, Alloc: o.alloc, Violation: v,
-			Stderr: append(sig, funcs...), Note: "crash-class violation: the run is regenerated from (seed, run); replaying kills the process again"}
+			Stderr: append(sig, funcs...), Note: note}
+		if share || !confirmed {
+			rf.ShareOffset, rf.ShareStride = cr.offset, cr.stride
+		}
 		path, err := WriteReplay(o.replayDir, rf)
 		if err != nil {
 			return fatal2("cannot write replay: %v", err)
@@ -763,29 +848,29 @@ func writeEvidence(o *options, p *Prop, agg, raceAgg *batchAgg, wall float64, nV
 		samples = append(samples, "no sample captured in this batch")
 	}
 	cov := map[string]interface{}{
-		"evaluations":         agg.runs + raceRunsOf(raceAgg),
-		"distinct_nontrivial": len(agg.sigs),
-		"rule":                p.Rule + " A run is non-trivial if at least one fault fired, a buffer was grown or recycled, or a task switch happened; two runs are distinct if the hashes of their abstract event traces (operation kind x size bucket x outcome x flags) differ.",
-		"samples":             samples,
-		"exhaustive":          false,
-		"simulated_runs":      agg.runs,
-		"race_build_runs":     raceRunsOf(raceAgg),
-		"nontrivial_runs":     agg.nonTriv,
+		"evaluations":              agg.runs + raceRunsOf(raceAgg),
+		"distinct_nontrivial":      len(agg.sigs),
+		"rule":                     p.Rule + " A run is non-trivial if at least one fault fired, a buffer was grown or recycled, or a task switch happened; two runs are distinct if the hashes of their abstract event traces (operation kind x size bucket x outcome x flags) differ.",
+		"samples":                  samples,
+		"exhaustive":               false,
+		"simulated_runs":           agg.runs,
+		"race_build_runs":          raceRunsOf(raceAgg),
+		"nontrivial_runs":          agg.nonTriv,
 		"distinct_abstract_3grams": len(agg.ngrams),
-		"operations":          agg.ops,
-		"simulated_time_events": agg.events,
-		"runs_per_hour":       int64(float64(agg.runs+raceRunsOf(raceAgg)) / wall * 3600),
-		"seeds_per_hour":      fmt.Sprintf("%.1f batches of this size per hour; every run index of a batch is its own PRNG stream derived from VERIF_SEED", 3600/wall),
-		"faults_fired":        faultsFired,
-		"faults_configured":   faultsCfg,
-		"reach_probes":        probes,
-		"reach_probes_at_zero": zero,
-		"counters":            other,
-		"foreign_observations": agg.foreign,
-		"known_findings_matched": nKnown,
-		"components":          p.Components,
-		"faults_not_injectable": append([]string{"clock skew/jumps and timer faults: the code has no clock or timer", "network partitions, reordering, duplication between nodes: no multi-node protocol", "disk torn/lost writes, fsync loss: no persistent storage"}, p.NotInjectable...),
-		"workers":             o.workers,
+		"operations":               agg.ops,
+		"simulated_time_events":    agg.events,
+		"runs_per_hour":            int64(float64(agg.runs+raceRunsOf(raceAgg)) / wall * 3600),
+		"seeds_per_hour":           fmt.Sprintf("%.1f batches of this size per hour; every run index of a batch is its own PRNG stream derived from VERIF_SEED", 3600/wall),
+		"faults_fired":             faultsFired,
+		"faults_configured":        faultsCfg,
+		"reach_probes":             probes,
+		"reach_probes_at_zero":     zero,
+		"counters":                 other,
+		"foreign_observations":     agg.foreign,
+		"known_findings_matched":   nKnown,
+		"components":               p.Components,
+		"faults_not_injectable":    append([]string{"clock skew/jumps and timer faults: the code has no clock or timer", "network partitions, reordering, duplication between nodes: no multi-node protocol", "disk torn/lost writes, fsync loss: no persistent storage"}, p.NotInjectable...),
+		"workers":                  o.workers,
 	}
 	if raceAgg != nil {
 		cov["race_build"] = map[string]interface{}{"runs": raceAgg.runs, "counters": raceAgg.counters}
